@@ -17,6 +17,11 @@ Wiring (deterministic, shape dependent):
   E2  every atomic leaf: one guarded candidate targeting the LAST top-level
       state (leaves a parallel ancestor, so later winners may become stale);
       every compound/parallel state: an unguarded targetless fallback
+  E5  every leaf: one guarded EMPTY candidate (no target, no actions: it absorbs
+      the event); every compound/parallel state: an unguarded targetless
+      fallback - the empty nominee must shadow it, and can() must report it
+  E6  as E3 with the guards spelled with the v4 key 'cond' (a non-last guarded
+      candidate spelled 'cond' is as guarded as one spelled 'guard')
   U   handled nowhere
 """
 from __future__ import annotations
@@ -75,6 +80,15 @@ def wire(cfg: Dict[str, Any]) -> Dict[str, Any]:
                 {"guard": f"g|{path}|E3|1", "actions": [{"type": "tr", "params": {"s": f"{path}|E3|1"}}]},
                 {"actions": [{"type": "tr", "params": {"s": f"{path}|E3|2"}}]},
             ]
+        if not c.get("states"):
+            on["E5"] = [{"guard": f"g|{path}|E5|0"}]
+            on["E6"] = [
+                {"cond": f"g|{path}|E6|0", "actions": [{"type": "tr", "params": {"s": f"{path}|E6|0"}}]},
+                {"cond": f"g|{path}|E6|1", "actions": [{"type": "tr", "params": {"s": f"{path}|E6|1"}}]},
+                {"actions": [{"type": "tr", "params": {"s": f"{path}|E6|2"}}]},
+            ]
+        else:
+            on["E5"] = [{"actions": [{"type": "tr", "params": {"s": f"{path}|E5|0"}}]}]
         if siblings:
             nxt = siblings[(siblings.index(key) + 1) % len(siblings)]
             t: Dict[str, Any] = {"target": nxt, "guard": f"g|{path}|E1|0",
@@ -159,6 +173,25 @@ class Wired:
         self.machine = create_machine(self.cfg, logic=logic)
         self.nodes = env.pin_hashes(self.machine)
         self.index = {n.id: i for i, n in enumerate(self.nodes)}
+        # the reference selection below reads the candidate lists of the PARSED machine; make sure the front end kept
+        # every declared candidate, in declaration order, with its guard - whichever key ('guard' / 'cond') spelled it
+        self.front_end_error: Optional[str] = None
+        by_id = {n.id: n for n in self.nodes}
+
+        def declared(c: Dict[str, Any], path: str) -> None:
+            if c.get("type") == "history":
+                return
+            node = by_id.get(path)
+            for ev, lst in (c.get("on") or {}).items():
+                want = [((t.get("actions") or [{}])[0].get("params", {}).get("s"), t.get("guard", t.get("cond"))) for t in lst]
+                got = [((t.actions[0].params or {}).get("s") if t.actions else None, t.guard_def.type if t.guard_def is not None else None)
+                       for t in (node.on.get(ev, []) if node is not None else [])]
+                if want != got and self.front_end_error is None:
+                    self.front_end_error = f"state {path} event {ev}: declared candidates (marker, guard) {want}, parsed machine has {got}"
+            for k, v in (c.get("states") or {}).items():
+                declared(v, f"{path}.{k}")
+
+        declared(self.cfg, self.cfg["id"])
         self.gindex: Dict[str, int] = {}
         for n in self.nodes:
             for ev, ts in n.on.items():
@@ -232,6 +265,8 @@ def _depth(n: Any) -> int:
 
 
 def _marker(t: Any) -> str:
+    if not t.actions:
+        return f"<empty {t.source.id}|{t.event}>"      # an absorbing candidate: selected, runs nothing
     return t.actions[0].params["s"]
 
 
@@ -259,6 +294,9 @@ def select_diff(c0: int, c1: int, c2: int, c3: int, c4: int, c5: int, tri: int, 
     eng = P["eng"]
     evname = P["event"]
     w = W
+    if w.front_end_error:
+        _note("the parsed machine does not carry the declared candidate lists: " + w.front_end_error)
+        return verdict(False)
     active = build_config(w.machine, Chooser([c0, c1, c2, c3, c4, c5]))
     gfn = _guard_val([b0, b1, b2, b3, b4, b5, b6, b7, b8, b9], tri)
     GV["fn"] = gfn
@@ -310,6 +348,8 @@ def select_diff(c0: int, c1: int, c2: int, c3: int, c4: int, c5: int, tri: int, 
     for t in want:
         if len(want) > 1 and t.source.id not in cur_ids:
             continue
+        if not t.actions:
+            continue            # an empty nominee fires nothing observable; it shadows its ancestors' handlers (not in `want`)
         expect.append(_marker(t))
         while hi < len(hooks) and hooks[hi][0] != _marker(t):
             hi += 1
@@ -352,9 +392,11 @@ def items(tier: str, seed: int) -> List[Dict[str, Any]]:
     fam = skeletons.gen(4, 3, limit=6 if quick else 120, seed=seed + 2)
     todo = [(sid, skeletons.CURATED[sid]) for sid in cur] + fam
     for sid, spec in todo:
-        for ev in ("E0", "E1", "E2", "E3", "U"):
+        for ev in ("E0", "E1", "E2", "E3", "E5", "E6", "U"):
             for eng in (0, 1):
                 if quick and eng == 1 and not ((sid == "CUR2") or (sid in ("CUR3", "CUR11") and ev == "E2")):
+                    continue
+                if quick and ev in ("E5", "E6") and sid not in ("CUR2", "CUR3"):
                     continue
                 if quick and ((ev == "E0" and sid in ("CUR7", "CUR10")) or (ev in ("E1", "E3") and sid == "CUR10")):
                     continue  # 2^(#active states) valuations: thorough tier only
